@@ -70,7 +70,13 @@ theorem tcp_rsp_layout_short (tid : UInt16) (uid : UInt8) (p : ResponsePdu) (buf
   have h := Tcp.encodeAdu_eq tid uid p.encode p.image (fun b => ResponsePdu.encode_eq p b he) buf
   rw [if_pos hb] at h; exact h
 
-/-- the length field is exact for every encodable standard request: the PDU has at most 265 bytes -/
+/-- the length field is exact for every complete request PDU: it has at most 265 bytes -/
+theorem tcp_req_complete_length_field (pdu : Bytes) (hc : Spec.PduComplete .req pdu) :
+    pdu.length ≤ 265 ∧ pdu.length + 1 < 65536 := by
+  have := req_complete_le hc
+  exact ⟨this, by omega⟩
+
+/-- … in particular for every encodable standard request -/
 theorem tcp_req_length_field (r : Request) (hs : r.Standard) (he : r.Encodable) (hx : r.DataExact) :
     r.image.length ≤ 265 ∧ r.image.length + 1 < 65536 := by
   have := req_image_length_le r hs he hx
@@ -132,57 +138,58 @@ example : (1 : UInt8) ≤ 0x2B ∧ (0x2B : UInt8) ≤ 0x2B := by decide
 /-- Decoding the frame of a complete request PDU (followed by anything) returns the same transaction
     id, the same unit id, and the value the PDU decoder returns for the PDU. -/
 theorem tcp_req_roundtrip (tid : UInt16) (uid : UInt8) (r r' : Request)
-    (hc : Spec.PduComplete .req r.image) (hn : r.image.length + 1 < 65536)
+    (hc : Spec.PduComplete .req r.image)
     (hd : Request.decode r.image = .ok r') (rest : Bytes) :
     Tcp.decodeRequest (Spec.tcpFrame tid uid r.image ++ rest) = .ok (some (tid, uid, r')) := by
+  have hn : r.image.length + 1 < 65536 := by have := req_complete_le hc; omega
   rw [tcp_decodeRequest_whole (tcp_req_good tid uid r.image hc hn) rest, hd]
   rfl
 
 /-- exactly that frame -/
 theorem tcp_req_roundtrip_exact (tid : UInt16) (uid : UInt8) (r r' : Request)
-    (hc : Spec.PduComplete .req r.image) (hn : r.image.length + 1 < 65536)
+    (hc : Spec.PduComplete .req r.image)
     (hd : Request.decode r.image = .ok r') :
     Tcp.decodeRequest (Spec.tcpFrame tid uid r.image) = .ok (some (tid, uid, r')) := by
-  have := tcp_req_roundtrip tid uid r r' hc hn hd []
+  have := tcp_req_roundtrip tid uid r r' hc hd []
   rwa [List.append_nil] at this
 
 /-- with the PDU-level round trip (C01) as hypothesis: an equivalent request comes back -/
 theorem tcp_req_roundtrip_sem (tid : UInt16) (uid : UInt8) (r : Request)
-    (hc : Spec.PduComplete .req r.image) (hn : r.image.length + 1 < 65536)
+    (hc : Spec.PduComplete .req r.image)
     (hpdu : ∃ r', Request.decode r.image = .ok r' ∧ r'.sem = r.sem) (rest : Bytes) :
     ∃ r', Tcp.decodeRequest (Spec.tcpFrame tid uid r.image ++ rest) = .ok (some (tid, uid, r')) ∧
       r'.sem = r.sem := by
   obtain ⟨r', hd, hs⟩ := hpdu
-  exact ⟨r', tcp_req_roundtrip tid uid r r' hc hn hd rest, hs⟩
+  exact ⟨r', tcp_req_roundtrip tid uid r r' hc hd rest, hs⟩
 
 /-- the standard kinds: completeness and the length bound are theorems, only the PDU-level round trip remains -/
 theorem tcp_req_roundtrip_standard (tid : UInt16) (uid : UInt8) (r r' : Request)
     (hs : r.Standard) (he : r.Encodable) (hx : r.DataExact)
     (hd : Request.decode r.image = .ok r') (rest : Bytes) :
     Tcp.decodeRequest (Spec.tcpFrame tid uid r.image ++ rest) = .ok (some (tid, uid, r')) :=
-  tcp_req_roundtrip tid uid r r' (tcp_req_frameable r hs he hx) (tcp_req_length_field r hs he hx).2 hd rest
+  tcp_req_roundtrip tid uid r r' (tcp_req_frameable r hs he hx) hd rest
 
 /-- encoder and decoder composed: the bytes `encode_request` reports as written — and equally the
     whole output buffer, whatever lay beyond — decode to the same ids and the decoded PDU -/
 theorem tcp_req_encode_decode (tid : UInt16) (uid : UInt8) (r r' : Request) (buf : Bytes)
     (he : r.Encodable) (hb : r.image.length + 7 ≤ buf.length)
-    (hc : Spec.PduComplete .req r.image) (hn : r.image.length + 1 < 65536)
+    (hc : Spec.PduComplete .req r.image)
     (hd : Request.decode r.image = .ok r') :
     ∃ out, Tcp.encodeRequest tid uid r buf = .ok (r.image.length + 7, out) ∧
       out.take (r.image.length + 7) = Spec.tcpFrame tid uid r.image ∧
       Tcp.decodeRequest (out.take (r.image.length + 7)) = .ok (some (tid, uid, r')) ∧
       Tcp.decodeRequest out = .ok (some (tid, uid, r')) := by
-  refine ⟨_, tcp_req_layout tid uid r buf he hb, ?_, ?_, tcp_req_roundtrip tid uid r r' hc hn hd _⟩
+  refine ⟨_, tcp_req_layout tid uid r buf he hb, ?_, ?_, tcp_req_roundtrip tid uid r r' hc hd _⟩
   · rw [← tcpFrame_length tid uid r.image, List.take_left']; rfl
   · rw [← tcpFrame_length tid uid r.image, List.take_left' rfl]
-    exact tcp_req_roundtrip_exact tid uid r r' hc hn hd
+    exact tcp_req_roundtrip_exact tid uid r r' hc hd
 
 /-- **fixed-layout requests, no hypothesis left**: read coils / discrete inputs / holding / input
     registers, write single coil / register — every transaction id, unit id, address, 16-bit value
     and coil state, any following bytes: the same ids and the same request come back -/
 theorem tcp_req_roundtrip_fixed (tid : UInt16) (uid : UInt8) (r : Request) (hf : r.FixedLayout) (rest : Bytes) :
     Tcp.decodeRequest (Spec.tcpFrame tid uid r.image ++ rest) = .ok (some (tid, uid, r)) :=
-  tcp_req_roundtrip_standard tid uid r r hf.standard hf.encodable hf.dataExact (req_decode_fixed r hf) rest
+  tcp_req_roundtrip_standard tid uid r r (req_fixed_standard hf) (req_fixed_encodable hf) (req_fixed_dataExact hf) (req_decode_fixed r hf) rest
 
 theorem tcp_req_encode_decode_fixed (tid : UInt16) (uid : UInt8) (r : Request) (hf : r.FixedLayout)
     (buf : Bytes) (hb : 12 ≤ buf.length) :
@@ -190,20 +197,38 @@ theorem tcp_req_encode_decode_fixed (tid : UInt16) (uid : UInt8) (r : Request) (
       Tcp.decodeRequest (out.take 12) = .ok (some (tid, uid, r)) ∧
       Tcp.decodeRequest out = .ok (some (tid, uid, r)) := by
   have h5 := req_image_length_fixed r hf
-  obtain ⟨out, h1, _, h3, h4⟩ := tcp_req_encode_decode tid uid r r buf hf.encodable (by omega)
-    (tcp_req_frameable r hf.standard hf.encodable hf.dataExact) (by omega) (req_decode_fixed r hf)
+  obtain ⟨out, h1, _, h3, h4⟩ := tcp_req_encode_decode tid uid r r buf (req_fixed_encodable hf) (by omega)
+    (tcp_req_frameable r (req_fixed_standard hf) (req_fixed_encodable hf) (req_fixed_dataExact hf)) (req_decode_fixed r hf)
   rw [h5] at h1 h3
   exact ⟨out, h1, h3, h4⟩
+
+/-- **custom requests, no PDU-level hypothesis left**: a custom function code that the request table
+    knows and that is not one of the nine modelled kinds (0x07, 0x0B, 0x0C, 0x11, 0x16, 0x18) comes
+    back as `Custom(FunctionCode::Custom(code), data)` — the same code and the same data -/
+theorem tcp_req_roundtrip_custom (tid : UInt16) (uid : UInt8) (fc : FunctionCode) (d : Bytes)
+    (hc : Spec.PduComplete .req (Request.custom fc d).image)
+    (hm : fc.value ∉ modelledReqCodes) (rest : Bytes) :
+    Tcp.decodeRequest (Spec.tcpFrame tid uid (Request.custom fc d).image ++ rest) =
+      .ok (some (tid, uid, .custom (.custom fc.value) d)) ∧
+    (Request.custom (.custom fc.value) d).sem = (Request.custom fc d).sem := by
+  obtain ⟨c, h0, hk⟩ := complete_known hc
+  have hc0 : c = fc.value := by
+    have : (Request.custom fc d).image[0]? = some fc.value := rfl
+    rw [this] at h0; exact (Option.some.inj h0).symm
+  subst hc0
+  exact ⟨tcp_req_roundtrip tid uid _ _ hc (req_decode_custom fc d (req_known_lt _ hk) hm) rest, rfl⟩
 
 /-! non-vacuity: a payload kind (write multiple registers built by `from_words`), a custom PDU the
     table knows (0x16, mask write register), the fixed kinds -/
 example : Tcp.decodeRequest (Spec.tcpFrame 0xBEEF 0xFF
       (Request.writeMultipleRegisters 1 ⟨[0x00, 0x0A, 0x01, 0x02], 2⟩).image ++ [0xDE, 0xAD]) =
     .ok (some (0xBEEF, 0xFF, .writeMultipleRegisters 1 ⟨[0x00, 0x0A, 0x01, 0x02], 2⟩)) :=
-  tcp_req_roundtrip_standard _ _ _ _ trivial (by show 2 * 2 ≤ 255; decide) (by show 4 = 2 * 2; rfl)
+  tcp_req_roundtrip_standard _ _ _ _ (by trivial) (by show 2 * 2 ≤ 255; decide) (by show 4 = 2 * 2; rfl)
     (by decide +kernel) _
+example : Spec.PduComplete .req (Request.custom .maskWriteRegister [0, 4, 0, 0xF2, 0, 0x25]).image ∧
+    FunctionCode.maskWriteRegister.value ∉ modelledReqCodes := by
+  unfold Spec.PduComplete; decide +kernel
 example : Spec.PduComplete .req (Request.custom (.custom 0x16) [0, 4, 0, 0xF2, 0, 0x25]).image ∧
-    (Request.custom (.custom 0x16) [0, 4, 0, 0xF2, 0, 0x25]).image.length + 1 < 65536 ∧
     Request.decode (Request.custom (.custom 0x16) [0, 4, 0, 0xF2, 0, 0x25]).image =
       .ok (.custom (.custom 0x16) [0, 4, 0, 0xF2, 0, 0x25]) := by
   unfold Spec.PduComplete; decide +kernel
@@ -291,7 +316,7 @@ theorem tcp_rsp_encode_decode (tid : UInt16) (uid : UInt8) (r r' : Response) (bu
     registers — every transaction id, unit id, address and 16-bit value -/
 theorem tcp_rsp_roundtrip_fixed (tid : UInt16) (uid : UInt8) (r : Response) (hf : r.FixedLayout) (rest : Bytes) :
     Tcp.decodeResponse (Spec.tcpFrame tid uid r.image ++ rest) = .ok (some (tid, uid, .ok r)) :=
-  tcp_rsp_roundtrip_standard_partial tid uid r r hf.frameable hf.encodable (rsp_decode_fixed r hf) rest
+  tcp_rsp_roundtrip_standard_partial tid uid r r (rsp_fixed_frameable hf) (rsp_fixed_encodable hf) (rsp_decode_fixed r hf) rest
 
 theorem tcp_rsp_encode_decode_fixed (tid : UInt16) (uid : UInt8) (r : Response) (hf : r.FixedLayout)
     (buf : Bytes) (hb : 12 ≤ buf.length) :
@@ -299,17 +324,37 @@ theorem tcp_rsp_encode_decode_fixed (tid : UInt16) (uid : UInt8) (r : Response) 
       Tcp.decodeResponse (out.take 12) = .ok (some (tid, uid, .ok r)) ∧
       Tcp.decodeResponse out = .ok (some (tid, uid, .ok r)) := by
   have h5 := rsp_image_length_fixed r hf
-  obtain ⟨b, h0, hlt⟩ := rsp_image_first_lt r hf.frameable
-  obtain ⟨out, h1, _, h3, h4⟩ := tcp_rsp_encode_decode tid uid r r buf ⟨hf.encodable, by omega⟩ (by omega)
-    (tcp_rsp_frameable r hf.frameable hf.encodable) (by omega) (exc_decode_err_of_lt _ b h0 hlt)
+  obtain ⟨b, h0, hlt⟩ := rsp_image_first_lt r (rsp_fixed_frameable hf)
+  obtain ⟨out, h1, _, h3, h4⟩ := tcp_rsp_encode_decode tid uid r r buf ⟨(rsp_fixed_encodable hf), by omega⟩ (by omega)
+    (tcp_rsp_frameable r (rsp_fixed_frameable hf) (rsp_fixed_encodable hf)) (by omega) (exc_decode_err_of_lt _ b h0 hlt)
     (rsp_decode_fixed r hf)
   rw [h5] at h1 h3
   exact ⟨out, h1, h3, h4⟩
 
-/-! non-vacuity: a read-holding-registers response, a coil response (meaning padded), a fixed kind -/
+/-- **custom responses, no PDU-level hypothesis left**: a custom function code below 0x80 that the
+    response table knows and that is not one of the nine modelled kinds (0x07, 0x0B, 0x0C, 0x16, 0x18)
+    comes back as `Custom(FunctionCode::new(code), data)` — the same code and the same data -/
+theorem tcp_rsp_roundtrip_custom (tid : UInt16) (uid : UInt8) (fc : FunctionCode) (d : Bytes)
+    (hc : Spec.PduComplete .rsp (Response.custom fc d).image)
+    (hn : (Response.custom fc d).image.length + 1 < 65536)
+    (hlt : fc.value < 0x80) (hm : fc.value ∉ modelledReqCodes) (rest : Bytes) :
+    Tcp.decodeResponse (Spec.tcpFrame tid uid (Response.custom fc d).image ++ rest) =
+      .ok (some (tid, uid, .ok (.custom (FunctionCode.new fc.value) d))) ∧
+    (Response.custom (FunctionCode.new fc.value) d).sem = (Response.custom fc d).sem := by
+  refine ⟨tcp_rsp_roundtrip tid uid _ _ hc hn (exc_decode_err_of_lt _ fc.value rfl hlt)
+    (rsp_decode_custom fc d hm) rest, ?_⟩
+  show some (Spec.RspMeaning.custom (FunctionCode.new fc.value).value d) = some (.custom fc.value d)
+  rw [value_new]
+
+/-! non-vacuity: a read-holding-registers response, a coil response (meaning padded), a fixed kind,
+    a custom PDU with a 16-bit count (0x18, read FIFO queue) -/
+example : Spec.PduComplete .rsp (Response.custom (.custom 0x18) [0x00, 0x02, 0xAA, 0xBB]).image ∧
+    (Response.custom (.custom 0x18) [0x00, 0x02, 0xAA, 0xBB]).image.length + 1 < 65536 ∧
+    (FunctionCode.custom 0x18).value < 0x80 ∧ (FunctionCode.custom 0x18).value ∉ modelledReqCodes := by
+  unfold Spec.PduComplete; decide +kernel
 example : Tcp.decodeResponse (Spec.tcpFrame 0x0102 0x03 (Response.readHoldingRegisters ⟨[0x12, 0x34, 0x56, 0x78], 2⟩).image ++ [0x99]) =
     .ok (some (0x0102, 0x03, .ok (.readHoldingRegisters ⟨[0x12, 0x34, 0x56, 0x78], 2⟩))) :=
-  tcp_rsp_roundtrip_standard_partial _ _ _ _ trivial (by show 2 * 2 ≤ 255 ∧ 2 * 2 ≤ 4; decide) (by decide +kernel) _
+  tcp_rsp_roundtrip_standard_partial _ _ _ _ (by trivial) (by show 2 * 2 ≤ 255 ∧ 2 * 2 ≤ 4; decide) (by decide +kernel) _
 example : ∃ r', Response.decode (Response.readCoils ⟨[0x05], 3⟩).image = .ok r' ∧
     r'.sem = (Response.readCoils ⟨[0x05], 3⟩).sem.map Spec.RspMeaning.padded := by
   refine ⟨.readCoils ⟨[0x05], 8⟩, by decide +kernel, by decide +kernel⟩
@@ -339,7 +384,7 @@ theorem tcp_rsp_roundtrip_standard_fails :
         Tcp.decodeResponse (Spec.tcpFrame tid uid r.image) = .ok (some (tid, uid, .ok r')) := by
   intro h
   obtain ⟨_, _, _, _, hd, hp⟩ := tcp_rsp_write_single_coil_defect_witness
-  have g := h 7 1 _ _ trivial (by decide) hp
+  have g := h 7 1 (.writeSingleCoil 0x33) _ trivial (by decide) hp
   rw [hd] at g
   cases g
 
@@ -357,7 +402,7 @@ theorem tcp_exception_roundtrip (tid : UInt16) (uid : UInt8) (f : UInt8) (k : Ex
     have : (0x2B : UInt8).toNat = 43 := rfl
     have : (0x80 : UInt8).toNat = 128 := rfl
     omega
-  rw [tcp_decodeResponse_whole (tcp_rsp_good tid uid _ (exc_complete f k.val h1 h2) (by decide)) rest,
+  rw [tcp_decodeResponse_whole (tcp_rsp_good tid uid _ (exc_complete f k.val h1 h2) (by simp)) rest,
     decodeRspPdu_exc f k hf]
   rfl
 
@@ -386,9 +431,11 @@ theorem tcp_exception_encode_decode (tid : UInt16) (uid : UInt8) (e : ExceptionR
   have hl := tcp_rsp_layout tid uid (.error e) buf hf hb
   have e2 : (ResponsePdu.error e).image = [e.function.value + 0x80, e.exception.val] := rfl
   rw [e2] at hl
+  have h9 : (Spec.tcpFrame tid uid [e.function.value + 0x80, e.exception.val]).length = 9 :=
+    tcpFrame_length tid uid _
   refine ⟨_, hl, ?_, ?_, tcp_exception_roundtrip tid uid _ _ h1 h2 _, value_new _⟩
-  · exact List.take_left' (tcpFrame_length tid uid _)
-  · rw [List.take_left' (tcpFrame_length tid uid _)]
+  · exact List.take_left' h9
+  · rw [List.take_left' h9]
     have := tcp_exception_roundtrip tid uid _ e.exception h1 h2 []
     rwa [List.append_nil] at this
 
@@ -399,7 +446,7 @@ theorem tcp_exception_encode_decode (tid : UInt16) (uid : UInt8) (e : ExceptionR
 theorem tcp_exception_unframeable (tid : UInt16) (uid : UInt8) (f x : UInt8)
     (h : f = 0 ∨ (0x2B < f ∧ f < 0x80)) :
     Tcp.decodeResponse (Spec.tcpFrame tid uid [f + 0x80, x]) = .ok none := by
-  have hs := tcp_decodeRsp_unknown tid uid [f + 0x80, x] (f + 0x80) (by decide) rfl (exc_rule_unknown f h)
+  have hs := tcp_decodeRsp_unknown tid uid [f + 0x80, x] (f + 0x80) (by simp) rfl (exc_rule_unknown f h)
   unfold Tcp.decodeResponse
   have hne : (Spec.tcpFrame tid uid [f + 0x80, x]).isEmpty = false := rfl
   rw [hne, hs]
